@@ -88,6 +88,54 @@ def run(ctx, eng):
            '; '.join(sorted(set(bad))) or '%d crediting paths use '
            'min(_bytes_processed, max - current) and reset the counter'
            % n_inc, node=f1.node)
+    # ---- when a credit is due (the liveness half: a window is re-opened
+    # once enough has been acknowledged, whatever its current value - in
+    # particular when a settings change took it below zero)
+    PROC = 'self._bytes_processed'
+    A = (('eq', CUR, '0'), True)
+    B = cm.key_literal(cm.mk_aff_key(
+        '>', {PROC: 1, 'min(1024, (self.max_window_size // 4))': -1}, 0))
+    C = cm.key_literal(cm.mk_aff_key(
+        '>=', {PROC: 1, '(self.max_window_size // 2)': -1}, 0))
+    NOTHING = ('truth', PROC)
+    cases = []
+    for p in cm.normal_paths(paths):
+        lits = {}
+        for e in p.events:
+            if e.kind == 'assume':
+                a, pol = cm.literal(e.cond)
+                if a == ('eq', '0', CUR):
+                    a = ('eq', CUR, '0')
+                lits[a] = pol
+        if lits.get(NOTHING) is False:
+            continue
+        credited = any(e.kind == 'write' and e.attr == 'current_window_size'
+                       for e in p.events) and p.value != T.C(0)
+        cases.append((lits, credited))
+
+    def due(asg):
+        def val(lit):
+            return asg.get(lit[0]) if lit[1] else (
+                None if asg.get(lit[0]) is None else not asg[lit[0]])
+        a, b, c = val(A), val(B), val(C)
+        if None in (a, b, c):
+            return None         # an atom of the rule does not occur at all
+        return bool((a and b) or c)
+    mm = cm.decision_mismatches(cases, due)
+    atoms_seen = {a for lits, _ in cases for a in lits}
+    have = all(x[0] in atoms_seen for x in (A, B, C))
+    ctx.ob('FLOW.credit-when', f1.qual, 'a credit is due exactly when the '
+           'window is empty and > min(1024, max/4) was processed, or >= '
+           'max/2 was processed', have and not mm,
+           ('tests found: %s' % sorted(map(repr, atoms_seen))[:6])
+           if not have else ('; '.join(
+               'credited=%s where the rule says %s under %s' % (
+                   o, x, {k[0] + ':' + str(k[1])[:50]: v
+                          for k, v in asg.items()})
+               for asg, o, x in mm[:2]) or
+               'decision table over the %d tests of the function agrees '
+               'with the rule on every combination' % len(atoms_seen)),
+           node=f1.node)
     f2 = m.func('windows.WindowManager.process_bytes')
     ok = False
     for p in cm.normal_paths(eng.I.run(f2)):
@@ -222,7 +270,8 @@ def run(ctx, eng):
                'threshold expression and on an induction over histories')
     cm.include(ctx, eng, 'C04', {'FLOW.delta', 'ARITH.open',
                                  'ARITH.consume', 'FLOW.init',
-                                 'FLOW.charge', 'FLOW.queue'},
+                                 'FLOW.charge', 'FLOW.queue',
+                                 'OWN.conn-window'},
                'window and maximum track what was advertised: a local '
                'INITIAL_WINDOW_SIZE change reaches every stream, and the '
                'window arithmetic is exact (it may go negative)')
